@@ -46,16 +46,27 @@ func writeTreeFiles(dir string, files []TreeFile) error {
 	return nil
 }
 
-// goSrc is a source file in which every line from 3 to 45 lies inside a
+// goSrc is a source file in which every line from 3 to 44 lies inside a
 // function with parameters, so that source-based argument augmentation really
-// rewrites the arguments of a frame that points into it.
+// rewrites the arguments of a frame that points into it. The signatures cover
+// the kinds of parameter the augmentation distinguishes (sized integers,
+// floats, bool, string, slice, array, map, chan, func, interface, selector,
+// pointer to pointer, unnamed and blank parameters, a variadic tail, pointer
+// and value receivers).
 var goSrc = func() string {
 	var b strings.Builder
 	b.WriteString("package p\n\n")
-	sigs := []string{"func worker(a int, b *int, s string) {", "func loop(f float64, p []byte, e error) {", "func (t *T) Run(n uint32, m map[string]int, c chan int) {"}
+	sigs := []string{
+		"func worker(a int, b *int, s string) {",
+		"func loop(f float64, p []byte, e error) {",
+		"func (t *T) Run(n uint32, m map[string]int, c chan int) {",
+		"func (t T) Serve(g float32, ok bool, i8 int8, i16 int16, args ...interface{}) {",
+		"func gopark(fn func(), arr [2]int, x io.Reader, i64 int64, _ uint8) {",
+		"func park(int32, uint, interface{}, struct{}, **int) {",
+	}
 	for _, sig := range sigs {
 		b.WriteString(sig + "\n")
-		for i := 0; i < 13; i++ {
+		for i := 0; i < 5; i++ {
 			b.WriteString("\t_ = 0\n")
 		}
 		b.WriteString("}\n")
